@@ -140,7 +140,12 @@ def gen_groups(ctx):
   per_group = 10 if quick else 24
   groups = []
   gid = 0
-  for mode, thr, eps, eigh, pcs in itertools.product(MODES, THRS, EPSS, [False, True], [1, 2]):
+  for k, (mode, thr, eps, eigh, pcs) in enumerate(
+      itertools.product(MODES, THRS, EPSS, [False, True], [1, 2])):
+    if quick and mode == "pmapq" and ((k // 2) + pcs) % 2 == 0:
+      # pmap compilation dominates the quick tier: each (thr, eps, eigh) gets ONE of pcs=1,2
+      # (alternating); the thorough tier runs the full product
+      continue
     cfg = dict(mode=mode, thr=thr, eps=eps, eigh=eigh, pcs=pcs,
                beta2=rng.choice([1.0, 0.999]), graft=rng.choice(["SGD", "RMSPROP_NORMALIZED"]))
     hs = structured_histories(rng)
@@ -443,7 +448,8 @@ def run(ctx):
   ctx.cov["rule"] = (
       "configurations: {replicated, pmap int16-quantized on 2 host devices, sharded} x threshold "
       "{0,1e-30,0.1,1e30} x matrix_epsilon {0,1e-6} x {Newton, eigh} x preconditioning_compute_steps "
-      "{1,2} (beta2, graft type drawn per configuration); per configuration 9 structured histories "
+      "{1,2} (quick tier: pmap gets one of the two per (thr,eps,kernel), alternating; beta2, graft "
+      "type drawn per configuration); per configuration 9 structured histories "
       "(all-zero, NaN/Inf on refresh and non-refresh steps, 1e12/1e-12/1e30/1e-30 whole gradients) + "
       "random histories of length 4..6 (thorough: + every subset of <=3 of 8 steps) with a fault "
       "(NaN, +-Inf, 0, +-1e12, +-1e30, 1e-12, 1e-30; one entry or whole gradient) at a random subset "
